@@ -3,6 +3,8 @@ package main
 import (
 	"fmt"
 	"go/token"
+	"go/types"
+	"reflect"
 	"strings"
 
 	"golang.org/x/tools/go/ssa"
@@ -135,7 +137,54 @@ func runC06(c *Ctx) {
 	c.Assume("axioms: go-multihash Encode/Decode are inverse and Decode rejects malformed input; base64.RawURLEncoding is the unpadded URL alphabet; SHA-2 collision resistance; JCS∘json.Marshal injective on JSON values")
 }
 
+// wireNames: the JSON member names (and omitempty options) of the request models are the names of the Sidetree wire
+// format. encoding/json matches names case-insensitively when decoding but writes the tag verbatim, so a model whose
+// tag drifts still decodes every request while the bytes that are hashed (suffix data, delta, signed data) change.
+var wireNameTable = map[string]map[string]string{
+	"CreateRequest":             {"Operation": "type,omitempty", "SuffixData": "suffixData,omitempty", "Delta": "delta,omitempty"},
+	"SuffixDataModel":           {"DeltaHash": "deltaHash,omitempty", "RecoveryCommitment": "recoveryCommitment,omitempty", "AnchorOrigin": "anchorOrigin,omitempty", "Type": "type,omitempty"},
+	"DeltaModel":                {"UpdateCommitment": "updateCommitment,omitempty", "Patches": "patches,omitempty"},
+	"UpdateRequest":             {"Operation": "type", "DidSuffix": "didSuffix", "RevealValue": "revealValue", "SignedData": "signedData", "Delta": "delta"},
+	"DeactivateRequest":         {"Operation": "type", "DidSuffix": "didSuffix", "RevealValue": "revealValue", "SignedData": "signedData"},
+	"RecoverRequest":            {"Operation": "type", "DidSuffix": "didSuffix", "RevealValue": "revealValue", "SignedData": "signedData", "Delta": "delta"},
+	"UpdateSignedDataModel":     {"UpdateKey": "updateKey", "DeltaHash": "deltaHash", "AnchorFrom": "anchorFrom,omitempty", "AnchorUntil": "anchorUntil,omitempty"},
+	"RecoverSignedDataModel":    {"DeltaHash": "deltaHash", "RecoveryKey": "recoveryKey", "RecoveryCommitment": "recoveryCommitment", "AnchorOrigin": "anchorOrigin,omitempty", "AnchorFrom": "anchorFrom,omitempty", "AnchorUntil": "anchorUntil,omitempty"},
+	"DeactivateSignedDataModel": {"DidSuffix": "didSuffix", "RevealValue": "revealValue", "RecoveryKey": "recoveryKey", "AnchorFrom": "anchorFrom,omitempty", "AnchorUntil": "anchorUntil,omitempty"},
+}
+
+func (c *Ctx) wireNames(rule string, models ...string) {
+	for _, m := range models {
+		nt := c.NamedType(pModel, m)
+		if nt == nil {
+			c.Unresolved(rule, "model."+m)
+			continue
+		}
+		st, ok := nt.Underlying().(*types.Struct)
+		if !ok {
+			c.Check(rule, "wire-names:"+m, false, nt.Obj().Pos(), "model."+m+" is not a struct")
+			continue
+		}
+		want := wireNameTable[m]
+		seen := 0
+		for i := 0; i < st.NumFields(); i++ {
+			f := st.Field(i)
+			tag := reflect.StructTag(st.Tag(i)).Get("json")
+			w, known := want[f.Name()]
+			if known {
+				seen++
+			}
+			c.Check(rule, "wire-names:"+m+"."+f.Name(), known && tag == w, f.Pos(), fmt.Sprintf("model.%s.%s is the wire member %q (json tag %q)", m, f.Name(), w, tag))
+		}
+		c.Check(rule, "wire-names:"+m+":complete", seen == len(want), nt.Obj().Pos(), fmt.Sprintf("model.%s carries all %d members of the wire format (%d found)", m, len(want), seen))
+		// no custom (un)marshaller that could rename members
+		custom := c.Method(pModel, m, "MarshalJSON") != nil || c.Method(pModel, m, "UnmarshalJSON") != nil
+		c.Check(rule, "wire-names:"+m+":no-custom-codec", !custom, nt.Obj().Pos(), "model."+m+" is encoded and decoded by encoding/json from its tags")
+	}
+}
+
 func runC03(c *Ctx) {
+	c.wireNames("C03.K2", "CreateRequest", "SuffixDataModel", "DeltaModel")
+	c.Min("C03.K2", 3+4+2+6)
 	pco := c.Method(pParser, "Parser", "ParseCreateOperation")
 	po := c.Method(pParser, "Parser", "ParseOperation")
 	gus := c.Fn(pModel, "GetUniqueSuffix")
